@@ -56,7 +56,7 @@ fn compile(comment_lines: &[String], on_operation: bool) -> Result<Got, String> 
 }
 
 pub fn run() -> i32 {
-    let mut rep = Report::new("comments", "overviews of 1..=3 lines over 6 line bodies x 5 indentations per line; block tags with inline + <=2 continuation lines over 4 indentations; tag identifier order; 14 malformed forms in 2 positions");
+    let mut rep = Report::new("comments", "overviews of 1..=3 lines over 6 line bodies x 5 indentations per line; block tags with inline + <=2 continuation lines over 4 indentations; tag identifier order; inline messages with links; link binding from the element's own scope outwards; 14 malformed forms in 2 positions");
     let indents = ["", " ", "  ", "\u{a0}", " \u{3000}"];
     let bodies = ["alpha", "beta gamma", "{@link T} starts", "mid {@link T} dle", "ends {@link T}", ""];
     // ---- overviews ---------------------------------------------------------------------------------
@@ -102,6 +102,55 @@ pub fn run() -> i32 {
                 if g.errors > 0 || !g.has_s { rep.counterexample(&label, "no error, operation present", &format!("errors={} op={}", g.errors, g.has_s)); }
                 else if g.params.len() != 1 || g.params[0].0 != "a" || &g.params[0].1 != want { rep.counterexample(&label, &format!("@param a with message {:?}", want), &format!("{:?}", g.params)); }
             }
+        }
+    }
+    // ---- inline tag messages with links and trailing blanks -------------------------------------------
+    for (line, want) in [
+        (" @param a: The {@link T} to use.", "The {@link T} to use.\n"), (" @param a: {@link T} first", "{@link T} first\n"), (" @param a: ends with {@link T}", "ends with {@link T}\n"),
+        (" @param a:   padded {@link T}  twice {@link U} ", "padded {@link T}  twice {@link U} \n"), (" @returns: The {@link U} value", "The {@link U} value\n"),
+    ] {
+        let lines = vec![line.to_owned()];
+        let label = format!("inline tag message {:?}", line);
+        rep.case(true, || label.clone());
+        match compile(&lines, true) {
+            Err(m) => rep.counterexample(&label, "a doc comment", &m),
+            Ok(g) => {
+                let got = if line.contains("@param") { g.params.first().map(|p| p.1.clone()) } else { g.returns.first().map(|r| r.1.clone()) };
+                if g.errors > 0 || got.as_deref() != Some(want) { rep.counterexample(&label, &format!("message {:?}", want), &format!("{:?} (errors={})", got, g.errors)); }
+            }
+        }
+    }
+    // ---- link binding: the same outward search as types, starting AT the documented element ----------
+    {
+        let text = "module M\nstruct Stop {}\nstruct On {}\n/// Either {@link On} or {@link Off}; see {@link Stop} and {@link M::Stop}.\n/// @see Off\n/// @see Stop\nenum Switch { On, Off }\n/// Uses {@link go} and {@link Switch::On}.\ninterface I {\n    /// Like {@link go}, unlike {@link Stop}.\n    go()\n}\n";
+        rep.case(true, || "link binding".to_owned());
+        let t2 = text.to_owned();
+        let out = std::panic::catch_unwind(move || {
+            let options = SliceOptions::default();
+            let state = slicec::compile_from_strings(&[&t2], Some(&options));
+            let links = |c: Option<&DocComment>| -> Vec<String> {
+                let mut v = vec![];
+                if let Some(c) = c {
+                    for comp in c.overview.iter().flat_map(|m| m.value.iter()) { if let MessageComponent::Link(l) = comp { v.push(match l.linked_entity() { Ok(e) => format!("{} {}", e.kind(), e.parser_scoped_identifier()), Err(id) => format!("?{}", id.value) }); } }
+                    for s in &c.see { v.push(match s.linked_entity() { Ok(e) => format!("see {} {}", e.kind(), e.parser_scoped_identifier()), Err(id) => format!("see ?{}", id.value) }); }
+                }
+                v
+            };
+            let mut got = vec![];
+            got.push(links(state.ast.find_element::<Enum>("M::Switch").ok().and_then(|e| e.comment())));
+            got.push(links(state.ast.find_element::<Interface>("M::I").ok().and_then(|e| e.comment())));
+            got.push(links(state.ast.find_element::<Operation>("M::I::go").ok().and_then(|e| e.comment())));
+            let diags: Vec<String> = state.into_diagnostics(&options).iter().map(|d| format!("{}: {}", d.code(), d.message())).collect();
+            (got, diags)
+        });
+        let want: Vec<Vec<String>> = vec![
+            vec!["enumerator M::Switch::On".into(), "enumerator M::Switch::Off".into(), "struct M::Stop".into(), "struct M::Stop".into(), "see enumerator M::Switch::Off".into(), "see struct M::Stop".into()],
+            vec!["operation M::I::go".into(), "enumerator M::Switch::On".into()],
+            vec!["operation M::I::go".into(), "struct M::Stop".into()],
+        ];
+        match out {
+            Err(_) => rep.counterexample(text, "links", "PANIC"),
+            Ok((got, diags)) => if got != want || !diags.is_empty() { rep.counterexample(text, &format!("{want:?}, no diagnostics"), &format!("{got:?} diagnostics={diags:?}")); },
         }
     }
     // ---- identifiers and order of tags ---------------------------------------------------------------
